@@ -126,9 +126,14 @@ def o_mu(c):
 
 # ---- non_negative_parafac_hals ---------------------------------------------------
 @st.composite
-def _hals_case(draw, inits, nn):
+def _hals_case(draw, inits, nn, force_fixed=False):
     c = draw(_base(inits=inits, cap_rank=(nn != "all")))
     nd = len(c["x"]["s"])
+    if force_fixed:
+        # user init with a non-empty set of fixed modes (never the last) and >= 1 sweep: the updated modes sit at positions
+        # different from their mode index (per-mode solver selection class)
+        c["fixed"] = draw(st.lists(st.integers(0, nd - 2), unique=True, min_size=1, max_size=max(1, nd - 2)).map(sorted))
+        c["n_iter"] = max(1, c["n_iter"])
     if nn == "all":
         c["nn_modes"] = "all"
     else:
@@ -262,7 +267,7 @@ def o_tucker_hals(c):
 
 # ---- constrained_parafac(non_negative=...) -------------------------------------------
 @st.composite
-def _constrained_case(draw, form, inits=("svd", "random", "user")):
+def _constrained_case(draw, form, inits=("svd", "random", "user"), force_fixed=False):
     x = draw(X.data(3, 4, 2, 4))
     _draw_scale(draw, x)
     shape = x["s"]
@@ -279,6 +284,14 @@ def _constrained_case(draw, form, inits=("svd", "random", "user")):
     if init == "user":
         c["uinit"] = draw(X.nn_cp_init(shape, rank))
         c["fixed"] = draw(st.one_of(st.none(), st.lists(st.integers(0, nd - 1), unique=True, max_size=nd - 1).map(sorted)))
+        if force_fixed:
+            # user init + a non-empty set of fixed modes (never the last) + at least one sweep + a strict subset of declared
+            # modes: the updated modes then sit at positions different from their mode index (per-mode bookkeeping class)
+            c["fixed"] = draw(st.lists(st.integers(0, nd - 2), unique=True, min_size=1, max_size=nd - 1).map(sorted))
+            c["n_iter"] = max(1, c["n_iter"])
+            free = [m for m in range(nd) if m not in c["fixed"]]
+            keep = draw(st.lists(st.sampled_from(free), unique=True, min_size=1, max_size=len(free)).map(sorted))
+            c["modes"] = keep if form != "true" else c["modes"]
     return c
 
 
@@ -460,6 +473,7 @@ def subchecks(tier):
     # HALS CP
     S.append(SubCheck("nncp_hals/random_user/all", _hals_case(("random", "user"), "all"), o_hals, quick=200, thorough=1500, discard_exc=LIN))
     S.append(SubCheck("nncp_hals/random_user/subset", _hals_case(("random", "user"), "subset"), o_hals, quick=200, thorough=1500, discard_exc=LIN))
+    S.append(SubCheck("nncp_hals/user_fixed/subset", _hals_case(("user",), "subset", force_fixed=True), o_hals, quick=150, thorough=1000, discard_exc=LIN))
     S.append(SubCheck("nncp_hals/svd/all", _hals_case(("svd",), "all"), o_hals, quick=200, thorough=1500, discard_exc=LIN))
     S.append(SubCheck("nncp_hals/svd/subset", _hals_case(("svd",), "subset"), o_hals, quick=200, thorough=1500, discard_exc=LIN))
     # Tucker
@@ -478,6 +492,7 @@ def subchecks(tier):
     # constrained CP
     S.append(SubCheck("constrained_cp/true", _constrained_case("true"), o_constrained, quick=250, thorough=2000, discard_exc=LIN))
     S.append(SubCheck("constrained_cp/dict", _constrained_case("dict"), o_constrained, quick=250, thorough=2000, discard_exc=LIN))
+    S.append(SubCheck("constrained_cp/user_fixed/dict", _constrained_case("dict", ("user",), force_fixed=True), o_constrained, quick=150, thorough=1000, discard_exc=LIN))
     # PARAFAC2
     S.append(SubCheck("parafac2/nn", _p2_case((0, 9)), o_p2, quick=200, thorough=1500, discard_exc=LIN))
     S.append(SubCheck("parafac2/linesearch_end", _p2_case((7, 13), ls_end=True), o_p2, quick=200, thorough=800, discard_exc=LIN))
